@@ -30,6 +30,7 @@ pub fn lexical_cfg(t: &mut Tape, thorough: bool) -> GenCfg {
     let raw = t.chance(1, 5);
     cfg.backslash_strings = raw;
     cfg.long_bodies = if raw { 260 } else { 40 };
+    cfg.many_globals = if raw { 160 } else { 20 };
     cfg.avoid_stmt_after_ret = t.chance(1, 2);
     cfg.avoid_unused_andor = false;
     cfg
@@ -112,6 +113,9 @@ fn features(p: &Program, src: &str) -> Vec<String> {
         }
         _ => {}
     });
+    if p.globals.len() >= 60 {
+        f.insert("many-globals".to_string());
+    }
     if src.len() > 12_000 {
         f.insert("large-program".to_string());
     }
